@@ -217,6 +217,48 @@ pub fn run(a: &Args) {
         std::mem::forget(mem);
     }
 
+    // (1c) FileSystem caches: after the drop the notify watcher goes away too (it lets go when a
+    // send fails), also when files keep changing under the root
+    {
+        let count_notify = || -> usize {
+            std::fs::read_dir("/proc/self/task")
+                .map(|d| {
+                    d.flatten()
+                        .filter(|e| std::fs::read_to_string(e.path().join("comm")).map(|c| c.starts_with("notify-rs")).unwrap_or(false))
+                        .count()
+                })
+                .unwrap_or(0)
+        };
+        let base = count_notify();
+        let d = tmp.join("watchers");
+        let _ = std::fs::create_dir_all(&d);
+        std::fs::write(d.join("a.txt"), "x").unwrap();
+        let k = 4;
+        for i in 0..k {
+            let cache = AssetCache::with_source(FileSystem::new(&d).unwrap());
+            let _ = cache.load::<String>("a");
+            cache.hot_reload();
+            drop(cache);
+            // activity after the drop: this is what tells the watcher that nobody listens any more
+            for j in 0..5 {
+                std::fs::write(d.join("a.txt"), format!("{i}-{j}")).unwrap();
+                std::thread::sleep(Duration::from_millis(20));
+            }
+        }
+        let mut left = count_notify().saturating_sub(base);
+        let t0 = Instant::now();
+        while left > 0 && t0.elapsed() < Duration::from_millis(2000) {
+            std::fs::write(d.join("a.txt"), "again").unwrap();
+            std::thread::sleep(Duration::from_millis(50));
+            left = count_notify().saturating_sub(base);
+        }
+        evals += 1;
+        samples.push(format!("{{\"kind\": \"FileSystem caches dropped, files still changing\", \"caches\": {k}, \"notify_threads_left\": {left}}}"));
+        if left > 0 {
+            violations.push(("reloader-alive-after-drop".into(), format!("{left} notify watcher thread(s) still alive 2 s after {k} FileSystem caches were dropped, although files under the root kept changing")));
+        }
+    }
+
     // (2) create / use / drop sequences
     let ks: &[usize] = if a.thorough() { &[1, 2, 4, 8] } else { &[1, 3] };
     'outer: for &k in ks {
